@@ -583,7 +583,14 @@ class Interp:
             if base == "Cmp":
                 return mkpred("cmp", a, b)
             cls = {"Add": "add", "Sub": "sub", "Mul": "mul", "Div": "div_floor", "Rem": "rem"}.get(base, "bit")
-            d = self.derive(store, [a, b], cls)
+            if cls in ("sub", "div_floor", "rem"):
+                pre = "sub" if cls == "sub" else "div"
+                da = self.derive(store, [a], cls)
+                db = self.derive(store, [b], cls)
+                d = vjoin(Val(frozenset((o, ops | {pre + ":l"}) for (o, ops) in da.atoms)),
+                          Val(frozenset((o, ops | {pre + ":r"}) for (o, ops) in db.atoms)))
+            else:
+                d = self.derive(store, [a, b], cls)
             if "WithOverflow" in op:
                 return Val(frozenset(), {"0": d, "1": mkpred("overflow", a, b)})
             return d
